@@ -37,9 +37,11 @@ func (bla *BucketLeapArray) NewEmptyBucket() interface{} {
 }
 
 func (bla *BucketLeapArray) ResetBucketTo(bw *BucketWrap, startTime uint64) *BucketWrap {
-	atomic.StoreUint64(&bw.BucketStart, startTime)
 	mb := bw.Value.Load().(*MetricBucket)
 	mb.reset()
+	// Publish the new start time only after the data has been cleared: a goroutine that already
+	// observes the new start must never read (or add to) the counters of the expired bucket.
+	atomic.StoreUint64(&bw.BucketStart, startTime)
 	return bw
 }
 
